@@ -441,12 +441,12 @@ def conformable(s):
 
 
 def conformable_faults(s):
-    """Domain of TraceFlwF.tla (FlwF.tla): as conformable(), restricted to the effects FlwF models - no cleanup, no
-    symlink - and to the calls whose error handling it transcribes."""
+    """Domain of TraceFlwF.tla (FlwF.tla): as conformable(), restricted to the effects FlwF models - no symlink - and to
+    the calls whose error handling it transcribes."""
     c = s.get("cfg", {})
     if not _conf_cfg(c) or s.get("resume") or s.get("virt") is False:
         return False
-    if c.get("k") is not None or c.get("m") is not None or c.get("link"):
+    if c.get("link"):
         return False
     live = False
     for st in s.get("steps", []):
